@@ -306,6 +306,9 @@ def real_fixed(tier):
     yield dict(base, n=2, m=0, items=4, raising=[1], kinds={"1": "die"}, via="pipes")
     yield dict(base, n=1, m=1, items=3, raising=[0], kinds={"0": "die"}, via="pipes")
     yield dict(base, n=3, m=2, items=7, raising=[5], kinds={"5": "die"}, via="pipes")
+    # one process with a positive maxtasksperchild through CobaMultiprocessor: still no process may handle more than m items
+    yield dict(base, n=1, m=1, items=3, raising=[], kinds={}, via="coba", fan={"0": 1, "1": 1, "2": 1})
+    yield dict(base, n=1, m=2, items=5, raising=[], kinds={}, via="coba", fan={str(i): 1 for i in range(5)})
     yield dict(base, n=2, m=1, items=5, raising=[2], kinds={"2": "AssertionError"}, via="pipes",
                then={"items": 3, "items_list": [100, 101, 102], "raising": [], "fan": {}, "abandon": None, "kinds": {}})
 
@@ -316,8 +319,8 @@ SUBCHECKS = [
     Sub(name="pb", run=run_pb, enumerate=pb_enumerate, nontrivial=lambda c: len(c["preemptions"]) >= 1, exhaustive=True,
         quick_shards=4, quick_budget_s=50, thorough_budget_s=1500,
         what="complete enumeration of all schedules with <= 1 preemption (thorough: <= 2 for the smallest) of small configurations (n<=3, items<=5, raising subsets, abandonment)"),
-    Sub(name="real_fixed", run=run_real, enumerate=real_fixed, nontrivial=lambda c: True, exhaustive=False, quick_shards=4, thorough_shards=4,
-        quick_budget_s=60, what="four fixed real-process cases run every time: a worker dying by os._exit mid-item for three (n, m) shapes - the call must terminate without duplicated outputs - and a second call on the same object after a filter error"),
+    Sub(name="real_fixed", run=run_real, enumerate=real_fixed, nontrivial=lambda c: True, exhaustive=False, quick_shards=6, thorough_shards=6,
+        quick_budget_s=60, what="six fixed real-process cases run every time (incl. CobaMultiprocessor with one process and a positive maxtasksperchild): a worker dying by os._exit mid-item for three (n, m) shapes - the call must terminate without duplicated outputs - and a second call on the same object after a filter error"),
     Sub(name="real", run=run_real, strategy=real_cases, nontrivial=nontrivial, classes=classes, quick=24, thorough=640,
         quick_shards=8, thorough_shards=16, quick_budget_s=60, thorough_budget_s=1200,
         what="real spawned workers via Multiprocessor (incl. read_wait) and CobaMultiprocessor; same oracle; OS schedules sampled"),
